@@ -12,7 +12,8 @@ LEVEL_TEXT = ("static: decides the mask symmetry the mechanism rests on, for eve
               "initialisation are exactly the fields read back when it is saved, and every ARES_OPT_* bit is handled on both sides; (WIN) every store of "
               "system configuration into the channel is dominated by 'the user did not set this bit', and setters that install user values set the bit on "
               "every success path; (IDENT) a configured server is matched to an existing one only on equal address, UDP port and TCP port; (DUP) every "
-              "field a public setter writes is either covered by a mask bit or copied by ares_dup. Does NOT decide textual round trip of server lists.")
+              "field a public setter writes is either covered by a mask bit or copied by ares_dup. Does NOT decide textual round trip of server lists."
+              " Also decides (COPYALL) member-wise function-table copies are complete, (EXPORTORDER) whether the server list is exported in configuration order (four known findings), (SETATOMIC) that a rejected setter call changes nothing, (OUTINIT) that server configs are filled completely.")
 LEVEL_NOTE = "trusts clang CFG + extractor; string-level fidelity of ares_get_servers_csv -> ares_set_servers_csv needs execution"
 DESIGN_REF = "DESIGN.md §6/C16"
 EXPLANATION = LEVEL_TEXT
